@@ -215,3 +215,111 @@ def transitive_field_access(facts, roots, kinds=("read", "ref", "refmut", "write
             for af in place_fields(pl):
                 out.setdefault(af, []).append((k, sp["line"]))
     return out
+
+
+# ------------------------------------------------------------------------------ panic census
+
+PANIC_CALLS = ("::unwrap", "::expect", "::unwrap_or_else")
+
+
+def enum_variant_count(facts, ty):
+    a = facts.adts.get(ty)
+    if a and a["kind"] == "Enum":
+        return len(a["variants"])
+    return None
+
+
+def census_body(facts, body):
+    """potential panic sites of one body: list of (kind, detail, line)"""
+    out = []
+    for bi, blk in enumerate(body.blocks):
+        if blk["cleanup"]:
+            continue
+        t = blk["term"]
+        if t["k"] == "assert":
+            kind = t["msg"]
+            detail = kind
+            if kind == "BoundsCheck":
+                detail = bounds_detail(facts, body, blk, t)
+            elif kind == "Overflow":
+                detail = overflow_detail(body, blk, t)
+            out.append(("assert:" + kind, detail, t["sp"]["line"]))
+        elif t["k"] == "call":
+            n = callee_name(t) or ""
+            tail = n.rsplit("::", 1)[-1]
+            if n.startswith("core::panicking::") or n.startswith("std::rt::begin_panic"):
+                if t["sp"]["exp"] and any(x[0].startswith("assert:") for x in out[-1:]):
+                    pass
+                out.append(("panic", tail, t["sp"]["line"]))
+            elif (n.startswith("core::option::Option<") or n.startswith("core::result::Result<")) and \
+                    tail in ("unwrap", "expect"):
+                out.append(("call:" + tail, n.split("<")[0].rsplit("::", 1)[-1], t["sp"]["line"]))
+            elif tail in ("index_const", "index") and n.startswith("cozy_chess_types::"):
+                out.append(("call:enum-from-index", n.rsplit("::", 2)[-2] + "::" + tail, t["sp"]["line"]))
+            elif n == "cozy_chess_types::square::Square::offset":
+                out.append(("call:offset", "Square::offset", t["sp"]["line"]))
+            elif n.startswith("core::slice::index::") or "::index::Index" in n or n.startswith("core::str::traits::"):
+                out.append(("call:index", tail, t["sp"]["line"]))
+            elif t["t"] is None and not n.startswith("core::panicking"):
+                out.append(("call:diverges", n, t["sp"]["line"]))
+    return out
+
+
+def _def_of(blk, local):
+    for s in reversed(blk["stmts"]):
+        if s["k"] == "assign" and s["pl"]["l"] == local and not s["pl"]["p"]:
+            return s["rv"]
+    return None
+
+
+def bounds_detail(facts, body, blk, t):
+    """classify `assert(idx < len)`"""
+    c = t["cond"]
+    if c["k"] not in ("copy", "move"):
+        return "const"
+    rv = _def_of(blk, c["pl"]["l"])
+    if rv is None or rv["k"] != "bin" or rv["op"] != "Lt":
+        return "unknown"
+    bound = rv["b"].get("v") if rv["b"]["k"] == "const" else None
+    a = rv["a"]
+    if a["k"] in ("copy", "move") and not a["pl"]["p"]:
+        d1 = _def_of(blk, a["pl"]["l"])
+        if d1 and d1["k"] == "cast" and d1["op"]["k"] in ("copy", "move"):
+            d2 = _def_of(blk, d1["op"]["pl"]["l"])
+            if d2 and d2["k"] == "discr":
+                n = enum_variant_count(facts, d2["of"])
+                if n is not None and bound is not None and n <= bound:
+                    return "enum-index-in-range"
+                return "enum-index:%s:%s" % (d2["of"].rsplit("::", 1)[-1], bound)
+    if a["k"] == "const" and bound is not None and a.get("v") is not None and a["v"] < bound:
+        return "const-index-in-range"
+    return "index<%s" % bound
+
+
+def overflow_detail(body, blk, t):
+    c = t["cond"]
+    if c["k"] not in ("copy", "move"):
+        return "const"
+    # cond is (tuple).1 of a WithOverflow op
+    l = c["pl"]["l"]
+    rv = _def_of(blk, l)
+    if rv and rv["k"] == "bin":
+        def od(o):
+            if o["k"] == "const":
+                return str(o.get("v"))
+            return body.locals[o["pl"]["l"]]["ty"].rsplit("::", 1)[-1]
+        return "%s(%s,%s)" % (rv["op"].replace("WithOverflow", ""), od(rv["a"]), od(rv["b"]))
+    return "unknown"
+
+
+def census(facts, roots, stop=None):
+    """-> {fn key: [(kind, detail, line)]} over everything reachable from roots"""
+    out = {}
+    for k in sorted(reachable_bodies(facts, roots, stop)):
+        b = facts.bodies[k]
+        if b.j["sp"]["exp"] and b.j.get("impl_trait") in ("core::fmt::Debug", "core::fmt::Display"):
+            continue
+        sites = census_body(facts, b)
+        if sites:
+            out[k] = sites
+    return out
